@@ -349,6 +349,11 @@ func c03Judge(res *engine.Result, l *lockstep, sbase uint8, watch []uint16, doc 
 		if a.Addr == 0xff0f {
 			continue // an interrupt line rising changes IF too: the bus tap above has judged the write's cycle
 		}
+		if a.Addr < 0x8000 || (a.Addr >= 0xa000 && a.Addr < 0xc000) || (a.Addr >= 0xfea0 && a.Addr < 0xff00) {
+			// not a location a stamp can be put into (the halt bug can turn an operand into such an address):
+			// the bus tap above has judged the write's cycle
+			continue
+		}
 		res.Probe("stamped_write")
 		j := idx[a.Addr]
 		realCycle := 0
